@@ -47,6 +47,12 @@ CHECKS = {
  "C16": dict(technique="TLA+ P-spec IniStore (abstract lines -> sections/keys/values: last assignment wins, lines before the first section dropped, key-less sections unlisted) model-checked by TLC; abstract files from its graph plus random ones rendered into concrete spellings (blanks, quoting, comment markers, '=' in values, BOMs, CRLF, long lines) and parsed by the real PIniFile; results validated by TLC (IniTrace, conversions from an oracle table); robustness on mutated/random bytes under ASan with the consistency predicate evaluated by TLC (IniRobust)",
              text="For files inside the documented grammar every section/key listing and every getter (string, int, boolean, list, default fallback) must equal what the P-spec derives from the abstract file; for arbitrary bytes the parser must return, stay memory-safe (ASan/UBSan build) and report a consistent object.",
              design_ref="3 C16", note="Trusted: " + TB + "; Python rendering of the documented grammar; double conversion asserted for exactly representable values only."),
+ "C09": dict(technique="TLA+ I-spec SockLoop (poll / system call / classify / retry loop composed with a fault injector, invariant NeverLeaks, liveness Completes) model-checked by TLC; each of its behaviours is a fault plan injected by link-time wrappers into poll/send/recv/sendto/recvfrom/accept of the real PSocket on IPv4 and IPv6 loopback; position-coded TCP streams and id-coded UDP datagrams validated by TLC against P-spec SockAbs (SockTrace, mode io)",
+             text="Every sequence of up to three injected EINTR / EAGAIN / short-transfer outcomes at every position of every looping call is executed on the real code (226 plans) and the observed system-call sequence is compared with the I-spec; API-level histories (incl. random chunkings, blocking/non-blocking mixes, peer close) must be behaviours of SockAbs: received bytes are exactly the next bytes of the stream, reported lengths are what reached the kernel, datagrams arrive at most once, truncated to the buffer, with the sender's address, and a blocking call never reports would-block.",
+             design_ref="3 C09", note="Trusted: " + TB + "; loopback only; --wrap seams; large transfers with tiny kernel buffers (real short sends) are not forced, short transfers are injected."),
+ "C10": dict(technique="TLA+ P-spec SockAbs with socket modes and life-cycle (closed, connected, listening, blocking, timeout, keepalive, backlog) as state; scripted and random call sequences on real PSocket objects; every return validated by TLC (SockTrace, mode life) incl. getter snapshot, elapsed time, poll usage and the system calls made",
+             text="After every call all getters must equal the spec state; after close every I/O call must fail with NOT_AVAILABLE having made no system call, a second close touches nothing; timed calls fail with TIMED_OUT and not before T (monotonic clock), non-blocking calls return would-block / in-progress without polling, blocking calls without timeout poll with -1 and a parked receiver/acceptor returns only after the peer acts; new and accepted descriptors carry FD_CLOEXEC.",
+             design_ref="3 C10", note="Trusted: " + TB + "; loopback only; a timed-out connect cannot be produced on loopback and is not covered."),
 }
 NA = {
  "C17": "pure encode/decode fidelity against the platform's inet_pton/inet_ntop over all addresses: no state, transitions or histories for a TLA+ specification to constrain (DESIGN.md section 5)",
